@@ -68,6 +68,10 @@ def DNSQuery : Nat := 121
 def all : List (String × Nat) := [("Connect", 10), ("Disconnect", 11), ("Reconnect", 12), ("HeartbeatCmd", 13), ("KickClient", 14), ("ServerShutdown", 15), ("TcpMapCreate", 20), ("TcpMapDelete", 21), ("TcpMapUpdate", 22), ("TcpMapList", 23), ("TcpMapStatus", 24), ("HttpMapCreate", 25), ("HttpMapDelete", 26), ("HttpMapUpdate", 27), ("HttpMapList", 28), ("HttpMapStatus", 29), ("SocksMapCreate", 30), ("SocksMapDelete", 31), ("SocksMapUpdate", 32), ("SocksMapList", 33), ("SocksMapStatus", 34), ("TunnelOpenRequestCmd", 35), ("TunnelMigrate", 36), ("TunnelMigrateAck", 37), ("TunnelStateSync", 38), ("DataTransferStart", 40), ("DataTransferStop", 41), ("DataTransferStatus", 42), ("ProxyForward", 43), ("DataTransferOut", 44), ("ConfigGet", 50), ("ConfigSet", 51), ("StatsGet", 52), ("LogGet", 53), ("HealthCheck", 54), ("RpcInvoke", 60), ("RpcRegister", 61), ("RpcUnregister", 62), ("RpcList", 63), ("ConnectionCodeGenerate", 70), ("ConnectionCodeList", 71), ("ConnectionCodeActivate", 72), ("ConnectionCodeRevoke", 73), ("MappingList", 74), ("MappingGet", 75), ("MappingDelete", 76), ("HTTPProxyRequest", 80), ("HTTPProxyResponse", 81), ("HTTPDomainGetBaseDomains", 82), ("HTTPDomainCheckSubdomain", 83), ("HTTPDomainGenSubdomain", 84), ("HTTPDomainCreate", 85), ("HTTPDomainDelete", 86), ("HTTPDomainList", 87), ("SOCKS5TunnelRequestCmd", 90), ("TunnelTrafficReport", 110), ("NotifyClient", 100), ("NotifyClientAck", 101), ("SendNotifyToClient", 102), ("DNSResolve", 120), ("DNSQuery", 121)]
 end c11.cmd
 
+namespace c11
+def identityKeys : List (String × Bool) := [("activated_by", false), ("by_client_id", false), ("client_id", false), ("conn_id", true), ("connection_id", true), ("created_by", true), ("listen_client_id", false), ("new_node_id", true), ("node_id", true), ("peer_client_id", false), ("platform_user_id", false), ("revoked_by", true), ("sender_client_id", false), ("source_conn_id", true), ("source_node_id", true), ("target_client_id", false), ("target_node_id", true), ("user_id", true)]
+end c11
+
 namespace Sel
 def c11_specialCased : List Nat := [c11.cmd.HTTPProxyResponse, c11.cmd.SOCKS5TunnelRequestCmd, c11.cmd.DNSResolve, c11.cmd.DNSQuery, c11.cmd.TunnelTrafficReport, c11.cmd.Disconnect]
 def c11_registered : List Nat := [c11.cmd.DNSResolve, c11.cmd.HTTPDomainGenSubdomain, c11.cmd.HTTPDomainCreate, c11.cmd.HTTPDomainDelete, c11.cmd.HTTPDomainGetBaseDomains, c11.cmd.HTTPDomainCheckSubdomain, c11.cmd.HTTPDomainList, c11.cmd.NotifyClientAck, c11.cmd.SendNotifyToClient, c11.cmd.TcpMapCreate, c11.cmd.HttpMapCreate, c11.cmd.SocksMapCreate, c11.cmd.DataTransferStart, c11.cmd.DataTransferOut, c11.cmd.ProxyForward, c11.cmd.Disconnect, c11.cmd.RpcInvoke, c11.cmd.ConfigGet, c11.cmd.ConnectionCodeGenerate, c11.cmd.ConnectionCodeList, c11.cmd.ConnectionCodeActivate, c11.cmd.MappingList, c11.cmd.MappingGet, c11.cmd.MappingDelete]
